@@ -38,6 +38,8 @@ type Contract struct {
 	Ensures  []*Clause
 	Modifies []*Clause
 	Loops    map[int]*LoopSpec
+	Defines  map[string]Expr
+	DefOrder []string
 	Trusted  bool // contract assumed, body not verified (must be listed in evidence)
 	MayPanic bool // explicit panics are part of the function's documented behaviour
 	Pure     bool
@@ -53,7 +55,7 @@ var labelRe = regexp.MustCompile(`^([A-Za-z_][A-Za-z0-9_\-]*):\s+`)
 var contractKeywords = map[string]bool{
 	"func": true, "requires": true, "ensures": true, "modifies": true, "loop": true,
 	"invariant": true, "decreases": true, "trusted": true, "maypanic": true, "pure": true,
-	"returns": true, "attr": true, "params": true, "interface": true, "method": true,
+	"returns": true, "attr": true, "params": true, "interface": true, "method": true, "define": true,
 }
 
 // LoadContracts reads every contracts_verif.go below root.
@@ -159,7 +161,7 @@ func loadContractFile(path string, out map[string]*Contract) error {
 	for _, rc := range clauses {
 		switch rc.kw {
 		case "func":
-			cur = &Contract{Pkg: pkgPath, Func: strings.TrimSpace(rc.text), Loops: map[int]*LoopSpec{}, Attrs: map[string]string{}, File: path, Line: rc.line}
+			cur = &Contract{Pkg: pkgPath, Func: strings.TrimSpace(rc.text), Loops: map[int]*LoopSpec{}, Attrs: map[string]string{}, Defines: map[string]Expr{}, File: path, Line: rc.line}
 			curLoop = nil
 			if _, dup := out[cur.Key()]; dup {
 				return fmt.Errorf("%s:%d: duplicate contract for %s", path, rc.line, cur.Key())
@@ -174,6 +176,17 @@ func loadContractFile(path string, out map[string]*Contract) error {
 				cur.Params = splitNames(rc.text)
 			case "returns":
 				cur.Results = splitNames(rc.text)
+			case "define":
+				kv := strings.SplitN(rc.text, "=", 2)
+				if len(kv) != 2 {
+					return fmt.Errorf("%s:%d: define NAME = expr", path, rc.line)
+				}
+				e, err := ParseExpr(strings.TrimSpace(kv[1]))
+				if err != nil {
+					return fmt.Errorf("%s:%d: %v", path, rc.line, err)
+				}
+				cur.Defines[strings.TrimSpace(kv[0])] = e
+				cur.DefOrder = append(cur.DefOrder, strings.TrimSpace(kv[0]))
 			case "trusted":
 				cur.Trusted = true
 			case "maypanic":
@@ -271,6 +284,7 @@ type SpecFunc struct {
 }
 
 type SpecAxiom struct {
+	Triggers []string
 	Label   string
 	E       Expr
 	Src     string
@@ -400,6 +414,16 @@ func (db *SpecDB) LoadFile(path string) error {
 		case strings.HasPrefix(it.text, "axiom "), strings.HasPrefix(it.text, "lemma "):
 			isLemma := strings.HasPrefix(it.text, "lemma ")
 			txt := strings.TrimSpace(it.text[6:])
+			var triggers []string
+			// optional trigger list:  axiom label @sym1,sym2: body
+			if ci := strings.Index(txt, ":"); ci > 0 {
+				if ai := strings.Index(txt[:ci], "@"); ai > 0 {
+					for _, t := range strings.Split(txt[ai+1:ci], ",") {
+						triggers = append(triggers, strings.TrimSpace(t))
+					}
+					txt = strings.TrimSpace(txt[:ai]) + txt[ci:]
+				}
+			}
 			m := labelRe.FindStringSubmatch(txt)
 			if m == nil {
 				// labels in spec files may contain dots
@@ -414,7 +438,7 @@ func (db *SpecDB) LoadFile(path string) error {
 			if err != nil {
 				return fmt.Errorf("%s:%d: %v", path, it.line, err)
 			}
-			db.Axioms = append(db.Axioms, &SpecAxiom{Label: m[1], E: e, Src: body, IsLemma: isLemma, File: path, Line: it.line})
+			db.Axioms = append(db.Axioms, &SpecAxiom{Label: m[1], E: e, Src: body, IsLemma: isLemma, File: path, Line: it.line, Triggers: triggers})
 		default:
 			return fmt.Errorf("%s:%d: unknown item: %s", path, it.line, it.text)
 		}
